@@ -27,7 +27,12 @@ def tasks(tier):
     # n = 1 and n = 2: everything
     out.append({"n": 1, "masks": [0, 1], "extras": True})
     for m in range(16):
-        out.append({"n": 2, "masks": [m], "extras": True})
+        if bin(m).count("1") >= 3:
+            # the densest two-state graphs are split over two tasks by where the states come from
+            out.append({"n": 2, "masks": [m], "extras": True, "source_set": "plain"})
+            out.append({"n": 2, "masks": [m], "extras": True, "source_set": "other"})
+        else:
+            out.append({"n": 2, "masks": [m], "extras": True})
     # n = 3
     masks = list(range(512))
     if quick:
@@ -42,7 +47,7 @@ def tasks(tier):
     chunk = 6 if quick else 1
     for lo in range(0, len(rest), chunk):
         few = all(bin(m).count("1") <= 2 for m in rest[lo : lo + chunk])
-        out.append({"n": 3, "masks": rest[lo : lo + chunk], "extras": not quick, "enum": few, "sub2": quick or all(bin(m).count("1") <= 3 for m in rest[lo : lo + chunk])})
+        out.append({"n": 3, "masks": rest[lo : lo + chunk], "extras": not quick, "enum": few, "sub2": (not quick) and all(bin(m).count("1") <= 3 for m in rest[lo : lo + chunk])})
     return out
 
 
@@ -111,6 +116,10 @@ def run(ctx, params):
             sources.append("enum")
         if any_targets:
             sources.append("collection")
+    if params.get("source_set") == "plain":
+        sources = ["plain"]
+    elif params.get("source_set") == "other":
+        sources = sources[1:] or ["plain"]
     source = sources[ctx.choose(len(sources), "source")]
     if source == "enum":
         n_ini = sum(1 for x in initial if x)
